@@ -194,7 +194,7 @@ def extra(root, out_dir, tier, seed, findings, cov):
 
 CFG = {
     "level": "proof",
-    "level_text": "Lean theorems about a model of format.rs prove, for all inputs: PARSER — the model of parse_codes/parse_code/try_parse_* equals the independently written reference grammar on EVERY format string, successes and the three error classes alike (parse_spec, parse_code_spec), and parsing the rendering of any well-formed element list gives the list back field by field (parse_roundtrip, parse_code_roundtrip); parsing fails only with truncated / unrecognised-conversion / width-too-large and never panics (parse_errors_only, conversion_char_spec). INTEGER conversions d i u o x X equal the reference printf text for every flag subset, width, precision and EVERY finite double, no i64 bound (int_conv_spec, int_conv_full; the former saturation finding is repaired). FLOAT conversions e E f F g G: everything after digit generation — sign, #, zero padding inside render_float or applied afterwards for %g, width, trailing-zero stripping, two-digit signed exponent, fixed/exponent form selection with the extracted threshold — equals the reference text for every flag subset, width, precision <= 308 and all digit data (float_conv_spec); a float precision above 308 is the error tooLarge for every value (float_precision_limit; the former u16-overflow finding is repaired). %s/%c/%% pad to the width in characters; %c is the reference for every value incl. negative numbers (pad_spec, percent_text, char_conv_spec; former NUL finding repaired). Values are consumed strictly left to right, each code seeing exactly its own window, %% consuming nothing, success implies the value count is exact (consumes_left_to_right, value_count_exact, too_few_is_error, too_many_is_error, percent_no_consume); text without % is copied unchanged (literal_copied, literal_elem_copied); object mode resolves %(key) incl. dotted paths, rejects `*` and key-less codes (obj_mode_spec); the conversion/flag/length-modifier tables, default precisions, %g threshold, exponent padding and the float precision limit with its guard are re-extracted from format.rs on every run (conv_table_spec, flag_table_spec). The model is tied to the code by an exhaustive differential run (flags 2^5 x widths x precisions x 15 conversions x values; every format string of length <= 4 over a 17-character alphabet, whose parse is compared FIELD BY FIELD through the Debug text of the real Vec<Element>; integer conversions of 16 numbers beyond the i64 range up to f64::MAX x flags x widths/precisions; float precision limit; %c of negative/fractional/huge numbers; argument-mode tables; seeded random strings; 1 in 16 also through `%`, std.format and std.mod from source) against both the model and the independent reference, and the implementation is additionally compared with CPython's `%` operator on ~1.4e5 cases of the common domain.",
+    "level_text": "Lean theorems about a model of format.rs prove, for all inputs: PARSER — the model of parse_codes/parse_code/try_parse_* equals the independently written reference grammar on EVERY format string, successes and the three error classes alike (parse_spec, parse_code_spec), and parsing the rendering of any well-formed element list gives the list back field by field (parse_roundtrip, parse_code_roundtrip); parsing fails only with truncated / unrecognised-conversion / width-too-large and never panics (parse_errors_only, conversion_char_spec). INTEGER conversions d i u o x X equal the reference printf text for every flag subset, width, precision and EVERY finite double, no i64 bound (int_conv_spec, int_conv_full; the former saturation finding is repaired). FLOAT conversions e E f F g G: everything after digit generation — sign, #, zero padding inside render_float or applied afterwards for %g, width, trailing-zero stripping, two-digit signed exponent, fixed/exponent form selection with the extracted threshold — equals the reference text for every flag subset, width, precision <= 308 and all digit data (float_conv_spec); a float precision above 308 is the error tooLarge for every value (float_precision_limit; the former u16-overflow finding is repaired). %s/%c/%% pad to the width in characters; %c is the reference for every value incl. negative numbers (pad_spec, percent_text, char_conv_spec; former NUL finding repaired). Values are consumed strictly left to right, each code seeing exactly its own window, %% consuming nothing, success implies the value count is exact (consumes_left_to_right, value_count_exact, too_few_is_error, too_many_is_error, percent_no_consume); text without % is copied unchanged (literal_copied, literal_elem_copied); object mode resolves %(key) incl. dotted paths, rejects `*` and key-less codes (obj_mode_spec); the conversion/flag/length-modifier tables, default precisions, %g threshold, exponent padding and the float precision limit with its guard are re-extracted from format.rs on every run (conv_table_spec, flag_table_spec). The model is tied to the code by an exhaustive differential run (flags 2^5 x widths x precisions x 15 conversions x values; every format string of length <= 4 over a 17-character alphabet, whose parse is compared FIELD BY FIELD through the Debug text of the real Vec<Element>; integer conversions of 16 numbers beyond the i64 range up to f64::MAX x flags x widths/precisions; float precision limit; %c of negative/fractional/huge numbers; argument-mode tables; seeded random strings; 1 in 16 also through `%`, std.format and std.mod from source; and a REACH family: 41 right operands of every type given bare — 0, -0, 0.0, -0.0, (1-1), (0*-1), integers, negative, fractional, huge numbers, strings, booleans, null, arrays, objects — x 42 format strings (two longer than the 100-byte rope threshold) + seeded random code x value, each through eleven entry points that must give the one reference answer: std_format(f, x), `f % x`, std.format(f, x), std.mod(f, x), `local f = .., v = ..; f % v`, `(f) % (x)`, `(f1 + f2) % x` with the format string cut in the middle, and the first four with the value wrapped as [x]) against both the model and the independent reference, and the implementation is additionally compared with CPython's `%` operator on ~1.4e5 cases of the common domain.",
     "level_note": "Trusted: Lean kernel; the hand model of format.rs (validated by the correspondence run only); the digit oracle: double -> decimal digit generation of %e/%f/%g (mul_add/floor/%/log10/powf) is recomputed by the harness and handed to model and reference; float_conv_spec holds for all digit data satisfying OracleOK (parts below 2^1024, fraction < 10^precision) but says nothing about whether the digits are the right ones — that is observed against CPython only (away from ties, |v|*10^p < 2^53), and beyond 2^53 the digits are known to be noise (finding c12_float_digits_inexact_beyond_2_53). An exact dyadic model of the pipeline was not built. render_integer's limb-wise long division (integer_digits) is modelled at the level of the exact integer (repeated % radix, / radix); the limb arithmetic itself is validated by the big-number correspondence cases only. Number -> text of %s is an input (C05).",
     "technique": "Lean 4 proof (parser = reference grammar for all strings + round trip, value threading, integer/float padding arithmetic, table equality) + exhaustive differential correspondence incl. field-by-field parse comparison + CPython as second oracle",
     "engines": ["c12"],
@@ -203,6 +203,7 @@ CFG = {
         "digit generation of %e/%f/%g (the float pipeline) is an oracle input to model and reference; it is compared with CPython only where |v|*10^precision < 2^53, away from rounding ties and (for %g) for |v| >= 1 without carry; where |v|*10^precision >= 2^53 CPython is compared too and a disagreement limited to digits after the 15th significant one is the listed finding",
         "the text of a non-string value under %s (Val::to_string) is an input",
         "float precisions explored: <= 9 in the cross product, 0..7 elsewhere, 308 with the value 0, 309/310/400/65535 for the error path; |v|*10^precision overflowing to infinity (\"%f\" % 1e308, \"%.308f\" % 3) is C04's finding c04_float_conversion_of_huge_number_debug_assert and is not explored here",
+        "a bare non-array, non-object right operand x means the argument list [x] (std_format's `o => format_arr(str, &[o])`); the reference answers `f % x`, std.mod(f, x), std.format(f, x) and their [x] forms from the same op; negative zero formats as zero without sign (sign from n < 0, as in std.jsonnet) except under %s, whose text is an input — CPython, which prints -0.0, is therefore not consulted on the REACH family's scalar operands",
         "format strings are modelled as code-point lists (the parser only inspects and slices at ASCII bytes)",
     ],
     "timeout": 3000,
